@@ -142,20 +142,149 @@ fn program_order(file: &syn::File) -> Result<Vec<&'static str>, String> {
     Err("Lowerer::program does not end in `Lir { functions: … }`".into())
 }
 
-/// the recognised actions of one arm of the item loop, in source order
-struct Acts(Vec<&'static str>);
+/// the recognised actions of one arm of the item loop, in source order, each with
+/// the condition it is executed under: `always` (straight-line code of the arm),
+/// `sizePositive` / `sizeZero` (under a test of the constant's layout size, also
+/// when the test goes through a local `Option` made by `(cond).then(…)` or an
+/// `if cond { Some(…) } else { None }`), `unknown` (any other `if` / `match` arm /
+/// closure / loop / right operand of `&&`, `||`)
+struct Acts {
+    out: Vec<(&'static str, &'static str)>,
+    guards: Vec<&'static str>,
+    /// locals bound to an `Option` that is `Some` exactly under a guard
+    env: HashMap<String, &'static str>,
+    /// what every simple local of the arm was bound to (`let key = format!(…);` — a lookup
+    /// key may be named before it is used)
+    bound: HashMap<String, String>,
+}
+
+fn negate(g: &'static str) -> &'static str {
+    match g {
+        "sizePositive" => "sizeZero",
+        "sizeZero" => "sizePositive",
+        g => g,
+    }
+}
+
+fn strip_parens(mut s: &str) -> &str {
+    loop {
+        if !(s.starts_with('(') && s.ends_with(')')) {
+            return s;
+        }
+        // the first parenthesis must close at the very end
+        let mut depth = 0i32;
+        let mut closes_at_end = true;
+        for (i, c) in s.char_indices() {
+            match c {
+                '(' => depth += 1,
+                ')' => {
+                    depth -= 1;
+                    if depth == 0 && i + 1 != s.len() {
+                        closes_at_end = false;
+                        break;
+                    }
+                }
+                _ => {}
+            }
+        }
+        if !closes_at_end {
+            return s;
+        }
+        s = &s[1..s.len() - 1];
+    }
+}
+
+impl Acts {
+    fn new() -> Self {
+        Acts { out: vec![], guards: vec![], env: HashMap::new(), bound: HashMap::new() }
+    }
+    fn current(&self) -> &'static str {
+        match self.guards.first() {
+            None => "always",
+            Some(g) if (*g == "sizePositive" || *g == "sizeZero") && self.guards.iter().all(|x| x == g) => g,
+            Some(_) => "unknown",
+        }
+    }
+    fn act(&mut self, a: &'static str) {
+        let g = self.current();
+        self.out.push((g, a));
+    }
+    fn classify(&self, e: &syn::Expr) -> &'static str {
+        let full = norm(e);
+        let s = strip_parens(&full);
+        if let Some(r) = s.strip_prefix('!') {
+            if !r.contains("&&") && !r.contains("||") {
+                let inner: syn::Expr = match syn::parse_str(r) {
+                    Ok(e) => e,
+                    Err(_) => return "unknown",
+                };
+                return negate(self.classify(&inner));
+            }
+            return "unknown";
+        }
+        if s.contains("&&") || s.contains("||") {
+            return "unknown";
+        }
+        // `let Some(x) = y` (also `&y`, `y.as_ref()`, `y.take()`)
+        if let Some(rest) = s.strip_prefix("letSome(") {
+            if let Some((_, src)) = rest.split_once(")=") {
+                let src = src.trim_start_matches('&').trim_start_matches("mut");
+                let src = src.trim_end_matches(".as_ref()").trim_end_matches(".take()").trim_end_matches(".as_mut()");
+                return self.env.get(src).copied().unwrap_or("unknown");
+            }
+            return "unknown";
+        }
+        if let Some(x) = s.strip_suffix(".is_some()") {
+            return self.env.get(x).copied().unwrap_or("unknown");
+        }
+        if let Some(x) = s.strip_suffix(".is_none()") {
+            return negate(self.env.get(x).copied().unwrap_or("unknown"));
+        }
+        if s.contains("size") {
+            if s.ends_with(">0") || s.ends_with("!=0") || s.ends_with(">=1") || s.starts_with("0<") || s.starts_with("0!=") {
+                return "sizePositive";
+            }
+            if s.ends_with("==0") || s.starts_with("0==") || s.ends_with("<1") {
+                return "sizeZero";
+            }
+        }
+        "unknown"
+    }
+    fn under<F: FnOnce(&mut Self)>(&mut self, g: &'static str, f: F) {
+        self.guards.push(g);
+        f(self);
+        self.guards.pop();
+    }
+}
+
 impl<'ast> Visit<'ast> for Acts {
     fn visit_expr_method_call(&mut self, m: &'ast syn::ExprMethodCall) {
         // receiver first (source order), then this call
         self.visit_expr(&m.receiver);
         let recv = norm(&m.receiver);
         let name = m.method.to_string();
+        // `(cond).then(|| …)`: the closure runs exactly under `cond`
+        if name == "then" && m.args.len() == 1 {
+            if let syn::Expr::Closure(c) = &m.args[0] {
+                let g = self.classify(&m.receiver);
+                self.under(g, |a| a.visit_expr(&c.body));
+                return;
+            }
+        }
         match name.as_str() {
-            "define_function" => self.0.push("define"),
-            "finalize_definitions" => self.0.push("finalize"),
-            "get_finalized_function" => self.0.push("getFinalized"),
-            "get" if recv.ends_with(".functions") && norm(&m.args).contains("::generated::drop_") => self.0.push("lookupDrop"),
-            "insert" if recv.ends_with(".roto_constants") => self.0.push("store"),
+            "define_function" => self.act("define"),
+            "finalize_definitions" => self.act("finalize"),
+            "get_finalized_function" => self.act("getFinalized"),
+            "get" if recv.ends_with(".functions") && {
+                // the key: `&format!("::generated::drop_{type_id}")`, or a local bound to that
+                let key = norm(&m.args);
+                let via_local = self.bound.get(key.trim_start_matches('&')).cloned().unwrap_or_default();
+                key.contains("::generated::drop_") || via_local.contains("::generated::drop_")
+            } =>
+            {
+                self.act("lookupDrop")
+            }
+            "insert" if recv.ends_with(".roto_constants") => self.act("store"),
             _ => {}
         }
         for a in &m.args {
@@ -168,11 +297,70 @@ impl<'ast> Visit<'ast> for Acts {
         }
         // `(func_ptr)(constant.ptr)`: a call through a function pointer
         if let syn::Expr::Paren(_) = &*c.func {
-            self.0.push("run");
+            self.act("run");
         } else {
             self.visit_expr(&c.func);
         }
     }
+    fn visit_local(&mut self, l: &'ast syn::Local) {
+        if is_verif_cfg(&l.attrs) {
+            return;
+        }
+        if let (syn::Pat::Ident(p), Some(init)) = (&l.pat, &l.init) {
+            let g = match &*init.expr {
+                syn::Expr::MethodCall(m) if m.method == "then" || m.method == "then_some" => Some(self.classify(&m.receiver)),
+                syn::Expr::If(i) if i.else_branch.is_some() && norm(&i.then_branch).starts_with("{Some(") => Some(self.classify(&i.cond)),
+                _ => None,
+            };
+            if let Some(g) = g {
+                self.env.insert(p.ident.to_string(), g);
+            }
+            self.bound.insert(p.ident.to_string(), norm(&init.expr));
+        }
+        syn::visit::visit_local(self, l);
+    }
+    fn visit_expr_if(&mut self, i: &'ast syn::ExprIf) {
+        self.visit_expr(&i.cond);
+        let g = self.classify(&i.cond);
+        self.under(g, |a| a.visit_block(&i.then_branch));
+        if let Some((_, e)) = &i.else_branch {
+            self.under(negate(g), |a| a.visit_expr(e));
+        }
+    }
+    fn visit_expr_match(&mut self, m: &'ast syn::ExprMatch) {
+        self.visit_expr(&m.expr);
+        for arm in &m.arms {
+            if m.arms.len() == 1 && arm.guard.is_none() {
+                self.visit_expr(&arm.body);
+            } else {
+                self.under("unknown", |a| a.visit_arm(arm));
+            }
+        }
+    }
+    fn visit_expr_closure(&mut self, c: &'ast syn::ExprClosure) {
+        self.under("unknown", |a| a.visit_expr(&c.body));
+    }
+    fn visit_expr_while(&mut self, w: &'ast syn::ExprWhile) {
+        self.under("unknown", |a| syn::visit::visit_expr_while(a, w));
+    }
+    fn visit_expr_for_loop(&mut self, w: &'ast syn::ExprForLoop) {
+        self.under("unknown", |a| syn::visit::visit_expr_for_loop(a, w));
+    }
+    fn visit_expr_loop(&mut self, w: &'ast syn::ExprLoop) {
+        self.under("unknown", |a| syn::visit::visit_expr_loop(a, w));
+    }
+    fn visit_expr_binary(&mut self, b: &'ast syn::ExprBinary) {
+        self.visit_expr(&b.left);
+        if matches!(b.op, syn::BinOp::And(_) | syn::BinOp::Or(_)) {
+            self.under("unknown", |a| a.visit_expr(&b.right));
+        } else {
+            self.visit_expr(&b.right);
+        }
+    }
+}
+
+fn lean_guarded(v: &[(&str, &str)]) -> String {
+    format!("[{}]", v.iter().map(|(g, a)| format!("(.{g}, .{a})")).collect::<Vec<_>>().join(", "))
 }
 
 fn lean_list(v: &[&str]) -> String {
@@ -217,15 +405,15 @@ fn c14emit(repo: &Path) -> Result<String, String> {
     let mut func_arm = None;
     for arm in &ms[0].arms {
         let p = norm(&arm.pat);
-        let mut a = Acts(vec![]);
+        let mut a = Acts::new();
         a.visit_expr(&arm.body);
         if arm.guard.is_some() {
             return Err("codegen: guarded arm in the define loop".into());
         }
         if p.starts_with("ItemKind::Constant") {
-            const_arm = Some(a.0);
+            const_arm = Some(a.out);
         } else if p.starts_with("ItemKind::Function") {
-            func_arm = Some(a.0);
+            func_arm = Some(a.out);
         } else {
             return Err(format!("codegen: unrecognised arm `{p}` in the define loop"));
         }
@@ -244,15 +432,20 @@ fn c14emit(repo: &Path) -> Result<String, String> {
     let finalize_at_end = tail == "module.finalize()" && fin_first;
 
     let mut s = String::new();
-    s.push_str("/- GENERATED by /verif/extract (target c14emit) from src/lir/lower.rs, src/codegen/mod.rs — do not edit. -/\nimport RotoV.Model.TarjanLir\nnamespace RotoV.Gen.C14Emit\nopen RotoV.Tarjan\n\n");
+    s.push_str("/- GENERATED by /verif/extract (target c14emit) from src/lir/lower.rs, src/codegen/mod.rs — do not edit. -/\nimport RotoV.Model.TarjanInit\nnamespace RotoV.Gen.C14Emit\nopen RotoV.Tarjan\n\n");
     s.push_str("/-- `Lowerer::program`: the groups of `Lir.functions`, in emission order -/\n");
     s.push_str(&format!("def programOrder : List EmitGroup := {}\n\n", lean_list(&order)));
     s.push_str("/-- `codegen`: the loop declaring every item precedes the loop defining them -/\n");
     s.push_str(&format!("def declareAllFirst : Bool := {}\n\n", declare_at < define_at));
     s.push_str("/-- `codegen`, arm `ItemKind::Constant` of the define loop, in source order -/\n");
-    s.push_str(&format!("def constantArm : List CgAct := {}\n\n", lean_list(&const_arm)));
+    let acts = |v: &[(&'static str, &'static str)]| v.iter().map(|x| x.1).collect::<Vec<_>>();
+    s.push_str(&format!("def constantArm : List CgAct := {}\n\n", lean_list(&acts(&const_arm))));
     s.push_str("/-- arm `ItemKind::Function` -/\n");
-    s.push_str(&format!("def functionArm : List CgAct := {}\n\n", lean_list(&func_arm)));
+    s.push_str(&format!("def functionArm : List CgAct := {}\n\n", lean_list(&acts(&func_arm))));
+    s.push_str("/-- arm `ItemKind::Constant` again, every action with the condition it is executed under\n(`always`: straight-line code of the arm; `sizePositive` / `sizeZero`: under a test of the\nconstant's layout size; `unknown`: under any other condition, in a closure, in a loop) -/\n");
+    s.push_str(&format!("def constantArmG : List (CgGuard × CgAct) := {}\n\n", lean_guarded(&const_arm)));
+    s.push_str("/-- arm `ItemKind::Function`, likewise -/\n");
+    s.push_str(&format!("def functionArmG : List (CgGuard × CgAct) := {}\n\n", lean_guarded(&func_arm)));
     s.push_str("/-- `codegen` ends in `module.finalize()`, which starts with `finalize_definitions` -/\n");
     s.push_str(&format!("def finalizeAtEnd : Bool := {finalize_at_end}\n"));
     s.push_str("\nend RotoV.Gen.C14Emit\n");
@@ -332,6 +525,18 @@ fn mir_read(file: &syn::File) -> Result<(Vec<&'static str>, Vec<&'static str>), 
                     fields.push("tempFromConstant");
                 } else if init.starts_with("fields.iter().map(") && init.ends_with(".collect()") && !init.contains("self.") {
                     // the projection: a pure function of the field list
+                } else if init.strip_prefix("Self::").and_then(|r| r.strip_suffix("(fields)")).is_some_and(|helper| {
+                    // … or that function by name: an associated function without `self` whose body is that chain
+                    find::func(file, helper, Some("Lowerer")).is_ok_and(|h| {
+                        let body = h.block.stmts.iter().map(|s| norm(s)).collect::<Vec<_>>().join(" ");
+                        h.sig.receiver().is_none()
+                            && h.sig.inputs.len() == 1
+                            && h.block.stmts.len() == 1
+                            && body.contains(".iter().map(")
+                            && body.ends_with(".collect()")
+                            && !body.contains("self")
+                    })
+                }) {
                 } else {
                     return Err(format!("path_value, arm ValueKind::Constant: unrecognised statement `{}`", stmt_str(st)));
                 }
